@@ -93,13 +93,24 @@ func runConc(c map[string]any) (any, error) {
 
 	type rec struct {
 		S, E int64
+		K    int
 		Res  any
 	}
+
+	// readers repeat their lookups (at most `laps` times) while changes are still being made
+	laps := getInt(c, "laps")
+	if laps < 1 {
+		laps = 1
+	}
+
+	var writersLeft atomic.Int64
 
 	writers := getArr(c, "writers")
 	readers := getArr(c, "readers")
 	wres := make([][]rec, len(writers))
 	rres := make([][]rec, len(readers))
+
+	writersLeft.Store(int64(len(writers)))
 
 	zzsync.Enable(true, uint64(getInt(c, "seed")))
 	defer zzsync.Enable(false, 0)
@@ -112,20 +123,21 @@ func runConc(c map[string]any) (any, error) {
 
 		go func() {
 			defer wg.Done()
+			defer writersLeft.Add(-1)
 			<-start
 
 			for k, o := range ops {
 				s := clock.Add(1)
 				r := applyChange(proc, obj(o))
 				e := clock.Add(1)
-				wres[i][k] = rec{s, e, r}
+				wres[i][k] = rec{s, e, k, r}
 			}
 		}()
 	}
 
 	for i, rd := range readers {
 		ops, _ := rd.([]any)
-		rres[i] = make([]rec, len(ops))
+		rres[i] = make([]rec, 0, len(ops)*laps)
 
 		wg.Add(1)
 
@@ -133,11 +145,13 @@ func runConc(c map[string]any) (any, error) {
 			defer wg.Done()
 			<-start
 
-			for k, o := range ops {
-				s := clock.Add(1)
-				r := findOnce(repo, obj(o))
-				e := clock.Add(1)
-				rres[i][k] = rec{s, e, r}
+			for lap := 0; lap < laps && (lap == 0 || writersLeft.Load() > 0); lap++ {
+				for k, o := range ops {
+					s := clock.Add(1)
+					r := findOnce(repo, obj(o))
+					e := clock.Add(1)
+					rres[i] = append(rres[i], rec{s, e, k, r})
+				}
 			}
 		}()
 	}
@@ -163,7 +177,7 @@ func runConc(c map[string]any) (any, error) {
 		for i, l := range rs {
 			lo := make([]any, len(l))
 			for k, r := range l {
-				lo[k] = map[string]any{"s": r.S, "e": r.E, "res": r.Res}
+				lo[k] = map[string]any{"s": r.S, "e": r.E, "k": r.K, "res": r.Res}
 			}
 
 			out[i] = lo
@@ -172,5 +186,11 @@ func runConc(c map[string]any) (any, error) {
 		return out
 	}
 
-	return map[string]any{"init": initRes, "writers": conv(wres), "readers": conv(rres)}, nil
+	// everything has finished: what the repository answers now is the state all changes have led to
+	final := []any{}
+	for _, o := range getArr(c, "final") {
+		final = append(final, findOnce(repo, obj(o)))
+	}
+
+	return map[string]any{"init": initRes, "writers": conv(wres), "readers": conv(rres), "final": final}, nil
 }
